@@ -137,6 +137,22 @@ NEEDS = {
  'C17-N': ('stored falsy value replaced by the default', 'last saved value 0 / False / empty', 'caught at once'),
  'C18-M': ('insideRW guard as a context manager without finally', 'a struct access failing inside a member, then a member update', 'caught at once'),
  'C18-N': ('checkLimits tests the limit for truth', 'a limit that is exactly 0', 'caught at once'),
+ 'C09-P': ('HasControlledBy.inputCallbacks becomes one class-level dict shared by all output modules', 'two output modules with a controller each, then a take-over on one of them', 'strengthened: two independent control loops judged by behaviour (the other loop must stay on) and by registered inputs of sibling / later outputs'),
+ 'C10-P': ('python module of a class put on the failed list when module creation raises a non-ConfigError', 'two erroneous modules from the same python file, the first failing with a wrong-typed parameter property', 'caught at once'),
+ 'C11-P': ('error reply matched through REQUEST2REPLY.get(action): key (None, ident) for unknown actions', 'a request with an unknown action answered by an error reply', 'caught at once'),
+ 'C12-P': ('ProxyClient.callback iterates the live callback list', 'a callback unregistering itself with another callback registered after it', 'caught at once'),
+ 'C14-P': ('only a cleanup caused by start / stop blocks re-interruption', 'an error with a multi-cycle cleanup, then stop or start before it finished', 'caught at once'),
+ 'C15-P': ('failing earlyInit / initModule leaves the module marked as not initialised', 'a module whose initialisation raises and a second access through an attachment', 'caught at once'),
+ 'C18-P': ('checkLimits returns after the limits tuple was checked', 'a parameter with a limits tuple AND a min/max pair, value inside the tuple but outside the pair', 'strengthened: limit configuration with both kinds together added'),
+ 'C20-P': ('per-connection set of logging connections, emptied by any off request, guards the reset', 'logging . debug, logging <one module> off, *IDN? or disconnect, then a record of another module', 'caught at once'),
+ 'C03-Q': ('ArrayOf maxlen default computed with "or": an explicit maxlen=0 becomes 100', 'an array type admitting only the empty array, rebuilt from its datainfo or copied', 'caught at once'),
+ 'C06-Q': ('activate looks the module up with get_module instead of the export table', 'a module with export=False and a module-level activate request for it', 'caught at once'),
+ 'C07-Q': ('*IDN? discards the rest of the receive buffer', '*IDN? in the same segment as (part of) a following request line', 'caught at once'),
+ 'C08-Q': ('activation snapshot built under the update lock but sent after releasing it', 'an update of an in-scope parameter from another thread between building and sending its snapshot line', 'caught at once'),
+ 'C13-Q': ('fast-poll switching restores a cached normal interval', 'pollinterval changed while fast polling is on, then fast polling off', 'caught at once'),
+ 'C16-Q': ('stale input flushed before the wait_before sleep instead of right before the send', 'wait_before > 0 and an unsolicited line arriving inside that window', 'caught at once'),
+ 'C17-Q': ('loaded entries no longer passed through datatype(value)', 'a stored struct entry lacking a member (outdated file)', 'caught at once'),
+ 'C19-Q': ('description truncated by UTF-8 bytes of the text instead of by the size of the JSON message', 'a long description whose kept prefix needs JSON escapes', 'caught at once'),
 }
 
 
